@@ -530,3 +530,29 @@ for _p, _t in (("C10", "TLA+ trace validation (TLC) of executions under controll
                ("C11", "TLA+ trace validation (TLC) of quiescent pending sets under exhaustively enumerated and sampled completion orders")):
     META[_p]["technique"] = _t
     META[_p]["text"] += " Small universes are additionally run under EVERY completion order (stateless depth-first explorer over the gate runtime, bounded per universe; the number explored exhaustively is in the evidence), all orders of one problem forming one comparison group with the synchronous run."
+
+
+# ---------------------------------------------------------------------------
+# C02 additionally cross-checks the oracle itself (MC_Universe.tla)
+# ---------------------------------------------------------------------------
+def oracle_sanity(prop, tier, seed):
+    exe = vlib.build_harness("release")
+    wd = os.path.join(vlib.WORK, prop)
+    os.makedirs(wd, exist_ok=True)
+    cases = os.path.join(wd, "oracle.cases")
+    n = 15 if tier == "quick" else 150
+    cnt = vlib.gen_cases(exe, cases, "solve:small,base,soft,direct,clean,locks,excl", n, seed + 5, "", render=False)
+    out, st = vlib.tlc("MC_Universe.tla", "MC_Universe.cfg", os.path.join(vlib.WORK, f"md_oracle_{prop}"),
+                       env_extra={"CASES": cases}, workers=1, timeout=1800, java_opts="-Xss1g -Xmx4g")
+    if "No error has been found" not in out:
+        tail = "\n".join(l for l in out.splitlines() if not l.startswith('"'))[-3000:]
+        raise vlib.ToolError("the oracle operators disagree with their naive definitions (MC_Universe):\n" + tail)
+    return {"oracle_cases_cross_checked": cnt, "oracle_states": st["distinct"]}
+
+
+def _c02(prop, tier, seed, t0):
+    info = oracle_sanity(prop, tier, seed)
+    return check.trace_check(prop, tier, seed, check.TRACE_PLANS[prop], t0, extra_cov=info)
+
+
+CHECKS["C02"] = _c02
